@@ -159,7 +159,13 @@ pub fn exec_main(engines: &[&'static dyn Engine], path: &str) -> i32 {
         .stack_size(stack)
         .spawn(move || {
             let mut st = RunStats::default();
-            engine.exec(&trace, &mut st)
+            let r = engine.exec(&trace, &mut st);
+            for (k, v) in &st.counters.0 {
+                if k.starts_with("max:") {
+                    println!("STAT {}={}", k, v);
+                }
+            }
+            r
         })
         .expect("spawn");
     match h.join() {
